@@ -290,6 +290,7 @@ func runC11(c *ctx) {
 	if c.tier == "thorough" {
 		n = 60000
 	}
+	c11Registration(c)
 	for i := 0; i < n; i++ {
 		seed := c.seed*31337 + uint64(i)
 		ln := int(seed % 31)
@@ -301,6 +302,79 @@ func runC11(c *ctx) {
 			c.eval(key)
 			c.dist["inst:"+inst]++
 			c11History(c, seed, ln, inst)
+		}
+	}
+}
+
+// registration entry points: an instance whose maps were supplied by RegisterNameMap /
+// RegisterNameType / RegisterTypeMap / RegisterType / RegisterVal behaves as one constructed
+// with those maps, and registering does not disturb a later one-shot call
+func c11Registration(c *ctx) {
+	for ti, t := range zooTypes {
+		for k := 0; k < 3; k++ {
+			seed := c.seed*7919 + uint64(ti)*13 + uint64(k)
+			val := genValue(t, seed, 40, 60)
+			tm, nm, ok := safeExtract(val)
+			if !ok {
+				continue
+			}
+			in := map[string]interface{}{"op": "register", "type": t.String(), "gseed": seed}
+			c.eval(fmt.Sprint("reg:", t.String(), "#", seed))
+			var want, got1, got2 []byte
+			o0, _ := guard(func() error { var e error; want, e = hessian.NewEncoder(nil, cloneNameMap(nm)).Encode(val); return e })
+			o1, _ := guard(func() error {
+				enc := hessian.NewEncoder(nil, map[string]string{})
+				enc.RegisterNameMap(cloneNameMap(nm))
+				var e error
+				got1, e = enc.Encode(val)
+				return e
+			})
+			o2, _ := guard(func() error {
+				enc := hessian.NewEncoder(nil, map[string]string{})
+				for a, b := range nm {
+					enc.RegisterNameType(a, b)
+				}
+				var e error
+				got2, e = enc.Encode(val)
+				return e
+			})
+			if o0 != o1 || o0 != o2 || (o0 == oOK && (!sameMapOrderInsensitive(want, got1, val) || !sameMapOrderInsensitive(want, got2, val))) {
+				c.fail("an encoder given its name map by registration differs from one constructed with it", in, fmt.Sprint(o0, o1, o2), "")
+				continue
+			}
+			if o0 != oOK {
+				continue
+			}
+			var dv0, dv1, dv2, dv3 interface{}
+			d0, _ := guard(func() error { var e error; dv0, e = hessian.NewDecoder(nil, cloneTypeMap(tm)).Decode(want); return e })
+			d1, _ := guard(func() error {
+				dec := hessian.NewDecoder(nil, map[string]reflect.Type{})
+				dec.RegisterTypeMap(cloneTypeMap(tm))
+				var e error
+				dv1, e = dec.Decode(want)
+				return e
+			})
+			d2, _ := guard(func() error {
+				dec := hessian.NewDecoder(nil, map[string]reflect.Type{})
+				for a, b := range tm {
+					dec.RegisterType(a, b)
+				}
+				var e error
+				dv2, e = dec.Decode(want)
+				return e
+			})
+			d3, _ := guard(func() error {
+				dec := hessian.NewDecoder(nil, map[string]reflect.Type{})
+				for a, b := range tm {
+					dec.RegisterVal(a, reflect.Zero(b).Interface())
+				}
+				var e error
+				dv3, e = dec.Decode(want)
+				return e
+			})
+			if d0 != d1 || d0 != d2 || d0 != d3 || (d0 == oOK && (canonTop(dv0) != canonTop(dv1) || canonTop(dv0) != canonTop(dv2) || canonTop(dv0) != canonTop(dv3))) {
+				c.fail("a decoder given its type map by registration differs from one constructed with it", in, fmt.Sprint(d0, d1, d2, d3), "")
+			}
 		}
 	}
 }
